@@ -253,7 +253,7 @@ type c18Kmer struct {
 func errLastFormat(format string) bool { return format != "sam" && format != "samh" }
 
 func runC18(r *core.Run) {
-	L := core.Pick(r, 5, 6)
+	L := core.Pick(r, 5, 7)
 	r.Bound("readers", fmt.Sprintf("Reader of FASTA, FASTQ, SAM, SAM ReaderHeader, BED, Newick x (every input over the format's token alphabet up to length %d + every small, medium and placeholder-token corpus file, incl. malformed ones so that stops fall on error items and between the several error items of a SAM file) x every stop position 1..N x {direct call, range+break}", L))
 	core.Clause(r, "readers", core.Opts{Rule: "every stop position of every iterator run, both call forms; exactly t callbacks, no panic, items == the first t of the uninterrupted run; for FASTA/FASTQ/BED/Newick an error item is last; non-trivial = uninterrupted run has at least 2 items"},
 		func(emit func(c18Input) bool) {
@@ -469,7 +469,7 @@ func runC18(r *core.Run) {
 			return checkStops(fmt.Sprintf("%s.File(%s)", c.Format, name), fileStop(c.Format, path), false, errLastFormat(c.Format))
 		})
 
-	NT := core.Pick(r, 6, 8)
+	NT := core.Pick(r, 6, 10)
 	r.Bound("traversals", fmt.Sprintf("PreOrder and PostOrder on every ordered tree with 1..%d nodes x every stop position", NT))
 	core.Clause(r, "tree-traversals", core.Opts{Rule: "every ordered tree up to the node bound, both traversals, every stop position, both forms; non-trivial = at least 2 nodes"},
 		func(emit func(c19Tree) bool) {
@@ -740,7 +740,7 @@ func runC18(r *core.Run) {
 			return nestedStops(fmt.Sprint("ForEach on trie of ", c.Words), seq, true)
 		})
 
-	LK := core.Pick(r, 5, 6)
+	LK := core.Pick(r, 5, 8)
 	core.Clause(r, "canonical-kmers", core.Opts{Rule: "CanonicalSubsequences on every sequence over ACGT up to the bound x k in 1..3 x every stop position, both forms; non-trivial = at least 2 items"},
 		func(emit func(c18Kmer) bool) {
 			enum.Strings("ACGT", LK, func(s string) bool {
